@@ -23,7 +23,9 @@ EXPLANATION = (
     'normalise tuple values, which JSON would silently turn into lists; '
     'R-C06.5 every serializer class that can be chosen when writing '
     'implements both directions, and every marker key a writer emits '
-    '(_deconstructed, _enum) is tested by the reader dispatch.')
+    '(_deconstructed, _enum) is tested by the reader dispatch; R-C06.6 '
+    'FieldSignature.deserialize decides whether to load an attribute from the '
+    'presence of its key, never from its value.')
 NOT_DECIDED = (
     'Round-trip equality for all values (nested Q/F/expressions, unicode, '
     'enums, legacy pickles) - needs execution.')
@@ -552,7 +554,55 @@ def r5_dispatch_symmetry(ctx):
                         key='marker-untested:%s' % mk)
 
 
+def r6_presence_not_value(ctx):
+    """Whether a stored attribute is loaded must depend on the key being
+    present, never on its value (explicit None / False / 0 are values)."""
+    ctx.rule('R-C06.6')
+    p = ctx.program
+    f = p.func(SIG, 'FieldSignature.deserialize')
+    g = ctx.cfg(f)
+    skips = [n for n in g.nodes if n.kind == 'stmt' and
+             isinstance(n.ast, ast.Continue)]
+    loads = [n for n in g.nodes if n.kind == 'stmt' and
+             isinstance(n.ast, ast.Assign) and any(
+                 isinstance(t, ast.Subscript) and
+                 unparse(t.value) == 'field_attrs' for t in n.ast.targets)]
+    ctx.floor('attribute loads in FieldSignature.deserialize', len(loads), 1)
+    bad = []
+    for sk in skips:
+        for t in g.nodes:
+            if t.kind != 'test' or not (g.guarded_by(sk, t, 'T') or
+                                        g.guarded_by(sk, t, 'F')):
+                continue
+            a = t.ast
+            presence = (isinstance(a, ast.Compare) and
+                        isinstance(a.ops[0], (ast.In, ast.NotIn))) or \
+                (isinstance(a, ast.Call) and call_name(a) == 'hasattr') or \
+                (isinstance(a, ast.Name) and a.id == 'alias')
+            if not presence:
+                bad.append((t, sk))
+    for ld in loads:
+        for t in g.nodes:
+            if t.kind == 'test' and (g.guarded_by(ld, t, 'T') or
+                                     g.guarded_by(ld, t, 'F')):
+                a = t.ast
+                if isinstance(a, ast.Compare) and any(
+                        isinstance(o, (ast.Is, ast.IsNot, ast.Eq, ast.NotEq))
+                        for o in a.ops) and 'value' in unparse(a):
+                    bad.append((t, ld))
+    if bad:
+        t, n = bad[0]
+        ctx.finding(f, t.ast, 'a stored field attribute is skipped depending '
+                    'on its value ("%s"), not on the key being present: an '
+                    'attribute stored with that value (explicit None) is '
+                    'silently dropped on reload' % unparse(t.ast),
+                    key='value-based-skip')
+    else:
+        ctx.ok(f, 'attributes are skipped only when their key is absent')
+
+
 def run(ctx):
+    r6_presence_not_value(ctx)
     r1_key_agreement(ctx)
     r2_state_serialised(ctx)
     r3_storage_framing(ctx)
